@@ -77,6 +77,11 @@ def bytes_like(chunks, kind):
             out.append(whole[pos:pos + len(c)])
             pos += len(c)
         return out
+    if kind == 'numpy-uint8':
+        # blocks of a file read with numpy.frombuffer / fromfile / memmap: an array has no truth value (`if chunk:` raises for more
+        # than one byte and is False for a single zero byte) and `chunk + chunk` adds element-wise
+        import numpy
+        return [numpy.frombuffer(bytes(c), dtype=numpy.uint8) for c in chunks]
     return list(chunks)
 
 
